@@ -145,7 +145,7 @@ long v_dec(const char *s)
     if (s[i] == '+' || s[i] == '-') { neg = (s[i] == '-'); i++; }
     for (; s[i] >= '0' && s[i] <= '9'; i++) {
         unsigned d = (unsigned)(s[i] - '0');
-        if (acc > (ULONG_MAX - d) / 10) { sat = 1; acc = ULONG_MAX; }
+        if (acc > ULONG_MAX / 10 || (acc == ULONG_MAX / 10 && d > ULONG_MAX % 10)) { sat = 1; acc = ULONG_MAX; }
         else acc = acc * 10 + d;
     }
     if (neg) {
@@ -156,7 +156,9 @@ long v_dec(const char *s)
     return (long)acc;
 }
 
+#ifndef VL_NO_ATOL
 long atol(const char *s) { return v_dec(s); }
+#endif
 int atoi(const char *s) { return (int)v_dec(s); }     /* glibc: (int) strtol(s, NULL, 10) */
 
 /* ---------------------------------------------------------------------- */
